@@ -108,6 +108,22 @@ func shapeTerm(lanes, levels []int, hl int, length int64) string {
 	return fmt.Sprintf("{| sh_levels := %s; sh_hl := %s; sh_len := %s |}", vhlib.List(it), vhlib.Nat(hl), vhlib.Z(length))
 }
 
+// unreadableShape never equals a model shape (node levels are 1..16, highestLevel <= 16, length >= 0).
+var unreadableShape = fmt.Sprintf("{| sh_levels := %s; sh_hl := %s; sh_len := %s |}", vhlib.List([]string{vhlib.Nat(97)}), vhlib.Nat(9999), vhlib.Z(-1))
+
+// readShape takes the dump through the verif accessor. The accessor walks all sixteen lanes of the
+// header, so on a structure whose header is broken (e.g. allocated too short) it panics itself: that
+// must be a mismatching shape of this step (kind 1), not a crash of the harness process.
+func readShape(shape func() ([]int, []int, int, int64)) (term string) {
+	if p, _ := vhlib.Recover(func() {
+		lanes, levels, hl, length := shape()
+		term = shapeTerm(lanes, levels, hl, length)
+	}); p {
+		return unreadableShape
+	}
+	return term
+}
+
 func pairsTerm(ks, vs []int64) string {
 	it := make([]string, len(ks))
 	for i := range ks {
@@ -189,9 +205,11 @@ func runMapTrace(variant int, ops []mop, src *drawSrc) (steps []string, labels [
 			_ = pv
 			call, res = mapCallNoResult(o), "RPanic"
 		}
-		lanes, levels, hl, length := m.Shape()
-		steps = append(steps, fmt.Sprintf("(%s, %s, %s)", call, res, shapeTerm(lanes, levels, hl, length)))
+		steps = append(steps, fmt.Sprintf("(%s, %s, %s)", call, res, readShape(m.Shape)))
 		labels = append(labels, mapOpName[o.Kind])
+		if p {
+			break // the state after a panic is undefined (locks may still be held): the trace ends here
+		}
 	}
 	return
 }
@@ -316,9 +334,11 @@ func runSetTrace(variant int, ops []sop, src *drawSrc) (steps []string, labels [
 				call = setCtor[o.Kind]
 			}
 		}
-		lanes, levels, hl, length := s.Shape()
-		steps = append(steps, fmt.Sprintf("(%s, %s, %s)", call, res, shapeTerm(lanes, levels, hl, length)))
+		steps = append(steps, fmt.Sprintf("(%s, %s, %s)", call, res, readShape(s.Shape)))
 		labels = append(labels, setOpName[o.Kind])
+		if p {
+			break // see runMapTrace
+		}
 	}
 	return
 }
@@ -450,6 +470,172 @@ func genSetTrace(rng *vhlib.Rng, profile string, extremes bool) []sop {
 	return ops
 }
 
+// ---------- deterministic "clear-tall" family ----------
+// A header rebuilt by Clear must be as tall as the one built by New: only nodes of level >= 5 use the
+// upper pointer array of the header, and a random trace rarely draws such a level soon after a Clear.
+// Each case: a few low inserts, Clear (also: as the very first operation, twice in a row, and again
+// after tall inserts), then fresh keys at levels 5..16 and 16 again through every insert flavour, each
+// looked up right after it, then removals and Range/Keys/Len. No random choice is involved.
+
+var tallUp = []int{5, 6, 7, 8, 9, 10, 11, 12, 13, 14, 15, 16, 16}
+var tallDown = []int{16, 16, 15, 14, 13, 12, 11, 10, 9, 8, 7, 6, 5}
+var tallZig = []int{16, 5, 15, 6, 14, 7, 13, 8, 12, 9, 11, 10, 16}
+
+var clearTallKeys = []func(i int) int64{
+	func(i int) int64 { return int64(10 + i) }, // ascending
+	func(i int) int64 { return int64(40 - i) }, // descending
+	func(i int) int64 { // alternating above / below everything present
+		if i%2 == 0 {
+			return int64(20 + i)
+		}
+		return int64(-3 - i)
+	},
+	func(i int) int64 { return int64(1 + i) },          // starts with the keys that were present before the Clear
+	func(i int) int64 { return int64(100 + (7*i)%13) }, // shuffled
+}
+
+var mapInsertKinds = []int{oStore, oLoadOrStore, oLazy, oPut}
+
+// tall map inserts: flavour (first+i) mod 4, each followed by Load/Get of the key just inserted
+func tallMapOps(heights []int, key func(int) int64, first int, vbase int64) (ops []mop, keys []int64) {
+	for i, h := range heights {
+		k := key(i)
+		ops = append(ops, mop{Kind: mapInsertKinds[(first+i)%4], K: k, V: vbase + int64(i), H: h})
+		look := oLoad
+		if i%2 == 1 {
+			look = oGet
+		}
+		ops = append(ops, mop{Kind: look, K: k, H: 1})
+		keys = append(keys, k)
+	}
+	return
+}
+
+func mapTail(keys []int64) []mop {
+	n := len(keys)
+	return []mop{
+		{Kind: oDelete, K: keys[0], H: 1},
+		{Kind: oLoadAndDelete, K: keys[n-1], H: 1},
+		{Kind: oRemove, K: keys[n/2], H: 1},
+		{Kind: oLoad, K: keys[0], H: 1},
+		{Kind: oRange, H: 1},
+		{Kind: oKeys, H: 1},
+		{Kind: oLen, H: 1},
+	}
+}
+
+func clearTallMapCases() [][]mop {
+	low := func(first int) []mop { // three low nodes (levels 1..3) through three flavours
+		return []mop{
+			{Kind: mapInsertKinds[first%4], K: 1, V: 11, H: 1},
+			{Kind: mapInsertKinds[(first+1)%4], K: 2, V: 12, H: 2},
+			{Kind: mapInsertKinds[(first+2)%4], K: 3, V: 13, H: 3},
+		}
+	}
+	clear := mop{Kind: oClear, H: 1}
+	var cases [][]mop
+	// inserts, Clear, tall inserts: every flavour is once the first tall insert after the Clear
+	for c, hs := range [][]int{tallUp, tallDown, tallZig, tallUp} {
+		ops := append(low(c), clear)
+		tall, keys := tallMapOps(hs, clearTallKeys[c], c, 200)
+		ops = append(ops, tall...)
+		cases = append(cases, append(ops, mapTail(keys)...))
+	}
+	// Clear as the very first operation
+	{
+		ops := []mop{clear, {Kind: oLen, H: 1}}
+		tall, keys := tallMapOps(tallDown, clearTallKeys[4], 2, 300)
+		ops = append(ops, tall...)
+		cases = append(cases, append(ops, mapTail(keys)...))
+	}
+	// Clear twice in a row, and once more after tall inserts
+	{
+		ops := append(low(1), clear, clear, mop{Kind: oLen, H: 1})
+		tall, _ := tallMapOps([]int{5, 16, 7, 16, 9, 11}, clearTallKeys[0], 3, 400)
+		ops = append(ops, tall...)
+		ops = append(ops, clear, mop{Kind: oEmpty, H: 1})
+		tall, keys := tallMapOps([]int{16, 6, 8, 10, 12, 14}, func(i int) int64 { return int64(8 + 2*i) }, 0, 500)
+		ops = append(ops, tall...)
+		cases = append(cases, append(ops, mapTail(keys)...))
+	}
+	return cases
+}
+
+// tall set inserts: AddB and batch Add (one or two elements) alternate, each followed by ContainsB / Contains
+func tallSetOps(heights []int, key func(int) int64, batchFirst bool) (ops []sop, keys []int64) {
+	batch := batchFirst
+	for i := 0; i < len(heights); {
+		if batch {
+			n := 2
+			if i+n > len(heights) {
+				n = 1
+			}
+			var xs []int64
+			for j := 0; j < n; j++ {
+				xs = append(xs, key(i+j))
+			}
+			ops = append(ops, sop{Kind: sAdd, Xs: xs, Hs: append([]int(nil), heights[i:i+n]...), H: 1})
+			ops = append(ops, sop{Kind: sContains, Xs: xs, H: 1})
+			keys = append(keys, xs...)
+			i += n
+		} else {
+			x := key(i)
+			ops = append(ops, sop{Kind: sAddB, X: x, H: heights[i]}, sop{Kind: sContainsB, X: x, H: 1})
+			keys = append(keys, x)
+			i++
+		}
+		batch = !batch
+	}
+	return
+}
+
+func setTail(keys []int64) []sop {
+	n := len(keys)
+	return []sop{
+		{Kind: sRemoveB, X: keys[0], H: 1},
+		{Kind: sRemove, Xs: []int64{keys[n-1], keys[n/2]}, H: 1},
+		{Kind: sContainsB, X: keys[0], H: 1},
+		{Kind: sContains, Xs: []int64{keys[1], keys[n-1]}, H: 1},
+		{Kind: sRange, H: 1},
+		{Kind: sValues, H: 1},
+		{Kind: sLen, H: 1},
+	}
+}
+
+func clearTallSetCases() [][]sop {
+	low := func() []sop {
+		return []sop{
+			{Kind: sAddB, X: 1, H: 1},
+			{Kind: sAddB, X: 2, H: 2},
+			{Kind: sAdd, Xs: []int64{3}, Hs: []int{3}, H: 1},
+		}
+	}
+	clear := sop{Kind: sClear, H: 1}
+	var cases [][]sop
+	for c, hs := range [][]int{tallUp, tallDown, tallZig, tallUp} {
+		ops := append(low(), clear)
+		tall, keys := tallSetOps(hs, clearTallKeys[c], c%2 == 1)
+		ops = append(ops, tall...)
+		cases = append(cases, append(ops, setTail(keys)...))
+	}
+	{
+		ops := []sop{clear, {Kind: sLen, H: 1}}
+		tall, keys := tallSetOps(tallDown, clearTallKeys[4], true)
+		ops = append(ops, tall...)
+		cases = append(cases, append(ops, setTail(keys)...))
+	}
+	{
+		ops := append(low(), clear, clear, sop{Kind: sLen, H: 1})
+		tall, _ := tallSetOps([]int{5, 16, 7, 16, 9, 11}, clearTallKeys[0], false)
+		ops = append(ops, tall...)
+		ops = append(ops, clear, sop{Kind: sEmpty, H: 1})
+		tall, keys := tallSetOps([]int{16, 6, 8, 10, 12, 14}, func(i int) int64 { return int64(8 + 2*i) }, true)
+		ops = append(ops, tall...)
+		cases = append(cases, append(ops, setTail(keys)...))
+	}
+	return cases
+}
+
 func seqSection(w *vhlib.Writer, o vhlib.Opts, rng *vhlib.Rng) {
 	src := &drawSrc{}
 	orig := fastrand.Uint32
@@ -477,6 +663,18 @@ func seqSection(w *vhlib.Writer, o vhlib.Opts, rng *vhlib.Rng) {
 		}
 		w.Case("SeqSet "+vhlib.List(steps), "seq skipset "+setVariants[variant], nontrivial, labels,
 			map[string]interface{}{"structure": "skipset", "variant": setVariants[variant], "generator": gen, "ops": ops, "op_names": setOpName})
+	}
+
+	// deterministic: Clear followed by tall nodes, on every variant
+	for v := range mapVariants {
+		for _, ops := range clearTallMapCases() {
+			emitMap(v, ops, "clear-tall")
+		}
+	}
+	for v := range setVariants {
+		for _, ops := range clearTallSetCases() {
+			emitSet(v, ops, "clear-tall")
+		}
 	}
 
 	// random profiled traces
